@@ -14,7 +14,7 @@ assert r.returncode == 0, r.stderr
 try:
     for p in props:
         t0 = time.time()
-        pr = subprocess.run(f'./check {p} --tier {tier}', shell=True, cwd='/verif', capture_output=True, text=True)
+        pr = subprocess.run(f'./check {p} --tier {tier}', shell=True, cwd='/verif', capture_output=True, text=True, env=dict(os.environ, VERIF_EVIDENCE_DIR='/tmp/scratch/seed_evidence'))
         out = pr.stdout
         viol = [l for l in out.split('\n') if l.startswith('VIOLATION')]
         und = [l for l in out.split('\n') if l.startswith('UNDECIDED') or l.startswith('INFRA-ERROR')]
